@@ -265,7 +265,7 @@ def run_wire(ctx, prop):
                 want1 = {"a": True, "lim": b, "rem": b - 1, "retry": 0}
                 want2 = {"a": True, "lim": b, "rem": b - 2, "retry": 0}
                 if any(f.get(k) != v for k, v in want1.items()) or any(s2.get(k) != v for k, v in want2.items()):
-                    bad = "after the hostile prefix a valid request on a fresh key (max_burst %d, 1 per 1000 s) is not answered with its correct decision on protocol %d and then on the next protocol" % (b, p["proto"])
+                    bad = "after the hostile prefix a valid request on a fresh key (max_burst %d, 1 per 1000 s) is not answered with its correct decision on two fresh connections of protocol %d" % (b, p["proto"])
             sl = r.get("slow_client")
             if sl:
                 pd["slow_client_commands"] = pd.get("slow_client_commands", 0) + len(sl["answers"])
